@@ -55,9 +55,9 @@ type Op struct {
 }
 
 type Tx struct {
-	ID                          uint64
-	Sender, Dest, Token         int
-	Amount, Fee                 *big.Int
+	ID                  uint64
+	Sender, Dest, Token int
+	Amount, Fee         *big.Int
 }
 type Batch struct {
 	Nonce, Timeout, Block uint64
@@ -101,17 +101,17 @@ type tokenInfo struct {
 type acctKey struct{ Acct, Token, Which int }
 
 type World struct {
-	c       *lib.Chain
-	x       *lib.XChain
-	users   []lib.Key
-	exts    []string
-	toks    []tokenInfo
-	keys    []acctKey
-	nextEv  uint64
-	stuck   bool // the event stream can no longer advance (an observed claim panicked)
-	params0 [4]uint64
-	h0      int64
-	bal0    []*big.Int
+	c                                           *lib.Chain
+	x                                           *lib.XChain
+	users                                       []lib.Key
+	exts                                        []string
+	toks                                        []tokenInfo
+	keys                                        []acctKey
+	nextEv                                      uint64
+	stuck                                       bool // the event stream can no longer advance (an observed claim panicked)
+	params0                                     [4]uint64
+	h0                                          int64
+	bal0                                        []*big.Int
 	userByAcc, userByHex, extIdx, tokByContract map[string]int
 }
 
